@@ -43,10 +43,17 @@ func VerifC13_TreePointers() {
 	verifAssume(len(oid) == 64)
 	verifAssumeAlphabet(oid, "09af")
 	canonical := "version https://git-lfs.github.com/spec/v1\noid sha256:" + oid + "\nsize 12\n"
-	verifBlobs13 = map[string]string{
-		strings.Repeat("0", 40): "*.bin filter=lfs diff=lfs merge=lfs -text\n",
+	// the attributes file: just the LFS line, or preceded by enough comment to
+	// reach or pass the 1024-byte pointer cut-off (its size must not matter)
+	attrs := "*.bin filter=lfs diff=lfs merge=lfs -text\n"
+	switch verifChoose("gitattributes.size", 3) {
+	case 1:
+		attrs = "# " + strings.Repeat("x", 1024-len(attrs)-3) + "\n" + attrs // exactly 1024 bytes
+	case 2:
+		attrs = "# " + strings.Repeat("licence text ", 200) + "\n" + attrs
 	}
-	verifTree13 = []git.TreeBlob{{Oid: strings.Repeat("0", 40), Size: 43, Mode: 0100644, Filename: ".gitattributes"}}
+	verifBlobs13 = map[string]string{strings.Repeat("0", 40): attrs}
+	verifTree13 = []git.TreeBlob{{Oid: strings.Repeat("0", 40), Size: int64(len(attrs)), Mode: 0100644, Filename: ".gitattributes"}}
 	n := 1 + verifChoose("files", verifBound("files", 2, 3))
 	type want struct {
 		name      string
